@@ -7,6 +7,7 @@ CONSTANTS
   MaxOps = 0
   ExportOps = 0
   RequestStateKeptAcrossLines = FALSE
+  ConnectionRemembersToken = FALSE
   VerifierRemembersTokens = FALSE
   RedactNeedsTLSRecord = FALSE
   KeyFamily = "cover"
